@@ -73,11 +73,13 @@ func Main() {
 	grp("mconn-stop-race", r.N(120, 12000), core.Opts{Workers: 64}, stopRaceCase) // wall time here is the 10 s send timeout of the code under test, not CPU
 	grp("mconn-double-failure", r.N(60, 3000), core.Opts{Workers: 8}, doubleFailure)
 	grp("mconn-garbage", r.N(8, 400)*len(garbageClasses), child, garbageCase)
+	grp("mconn-pongs", r.N(24, 2000), core.Opts{Workers: 8}, pongCase)
 	// the concurrent workloads again under the race detector (child processes of the -race binary)
 	race := core.Opts{Procs: 8, Workers: 4, Race: true, StallSec: 300, Env: []string{"GORACE=halt_on_error=1"}}
 	grp("race-stream-concurrent-writers", r.N(40, 2500), race, concurrentWriters)
 	grp("race-mconn-traffic", r.N(60, 4000), race, trafficRandom)
 	grp("race-mconn-stop", r.N(48, 2000), race, stopRaceCase)
+	grp("race-mconn-pongs", r.N(16, 800), race, pongCase)
 
 	if !r.IsChild() {
 		// the fault-enumeration sub-check: what was enumerated, and that all of it ran
